@@ -380,7 +380,17 @@ func sortInts(xs []int) {
 
 // RunRandom generates and executes one history.
 func RunRandom(r *hx.Rand, p Profile) (*Exec, *Monitor) {
+	return RunRandomPar(r, p, 0)
+}
+
+// RunRandomPar generates a history online; with par > 0 on a graph driven by ParallelStabilize
+// (every generated pass is a ParStabilize). Used for fault streams, where a serial twin is not
+// comparable operation by operation (a failing block runs to its end in parallel).
+func RunRandomPar(r *hx.Rand, p Profile, par int) (*Exec, *Monitor) {
 	e := NewExec(p.MaxHeight)
+	if par > 0 {
+		e = NewExecPar(p.MaxHeight, par)
+	}
 	e.Sorted = p.Wide
 	m := NewMonitor(e)
 	g := &Gen{R: r, P: p, E: e}
@@ -390,6 +400,9 @@ func RunRandom(r *hx.Rand, p Profile) (*Exec, *Monitor) {
 			op = p.Prefix[i]
 		} else {
 			op = g.Next()
+		}
+		if par > 0 && op.K == "Stabilize" {
+			op.K = "ParStabilize"
 		}
 		m.BeforeOp(op)
 		s := e.Do(op)
@@ -413,7 +426,7 @@ func RunRandom(r *hx.Rand, p Profile) (*Exec, *Monitor) {
 // compares the two executions after every operation (the C04 oracle, evaluated on the
 // implementation): observer values, values of top-level nodes, node count, number of
 // registered nodes, the set of top-level nodes reported as updated, and the result class.
-func RunTwin(serial *Exec, parallelism int) (par *Exec, mon *Monitor, findings []Finding) {
+func RunTwin(serial *Exec, parallelism int, compare bool) (par *Exec, mon *Monitor, findings []Finding) {
 	par = NewExecPar(serial.MaxHeight, parallelism)
 	mon = NewMonitor(par)
 	for i, op := range serial.Ops {
@@ -423,6 +436,14 @@ func RunTwin(serial *Exec, parallelism int) (par *Exec, mon *Monitor, findings [
 		mon.BeforeOp(op)
 		s := par.Do(op)
 		mon.AfterOp(op, s)
+		if !compare {
+			// fault streams: a failing block runs to its end under ParallelStabilize but stops at
+			// the first error serially, so the two executions legitimately differ until the retry
+			if s.Crashed {
+				break
+			}
+			continue
+		}
 		ref := serial.Samples[i]
 		differ := func(what string) {
 			findings = append(findings, Finding{Prop: "C04", Kind: "parallel-differs:" + what, Op: i + 1,
